@@ -383,4 +383,304 @@ theorem decOne_sim {S : Schema} {mi : Nat} {lazy : Nat → Bool} {depth : Int} {
             rw [hfr1 k hkf, hfr2 k hkf, hcs]
             simpa using this
 
+theorem decOne_rest_len {fuel : Nat} {S : Schema} {mi : Nat} {m m' : Msg} {b rest : List Byte} {num wt tl : Nat}
+    {depth : Int} {dis : Bool} (h : decOne fuel S mi m b num wt tl depth dis = .ok (m', rest)) :
+    rest.length ≤ b.length - tl := by
+  unfold decOne at h
+  repeat' (first | split at h | (dsimp only at h; split at h))
+  all_goals first
+    | (cases h; done)
+    | (simp only [Except.ok.injEq, Prod.mk.injEq] at h
+       rw [← h.2]; simp only [List.length_drop]; omega)
+
+/-- **the lazy record loop simulates the eager one**: same errors, and on success the eager result is
+related to the lazy state -/
+theorem lazy_sim (S : Schema) (mi : Nat) (lazy : Nat → Bool) (depth : Int) (dis : Bool) :
+    ∀ (fuel : Nat) (l : LMsg) (m : Msg) (b : List Byte), Sim S mi lazy depth dis l m → b.length + 2 ≤ fuel →
+      (∀ e, decLazyLoop fuel S mi lazy l b depth dis = .error e → decMsg fuel S mi m b depth dis = .error e) ∧
+      (∀ l', decLazyLoop fuel S mi lazy l b depth dis = .ok l' →
+        ∃ m', decMsg fuel S mi m b depth dis = .ok m' ∧ Sim S mi lazy depth dis l' m')
+  | 0, _, _, _, _, hf => by omega
+  | fuel + 1, l, m, b, hsim, hf => by
+    cases b with
+    | nil =>
+      simp only [decLazyLoop, decMsg]
+      exact ⟨(by intro e he; cases he), (by intro l' hl; cases hl; exact ⟨m, rfl, hsim⟩)⟩
+    | cons x r =>
+      cases ht : decTag (x :: r) with
+      | error e0 =>
+        simp only [decLazyLoop, decMsg, ht]
+        exact ⟨(by intro e he; cases he; rfl), (by intro l' hl; cases hl)⟩
+      | ok t =>
+        obtain ⟨num, wt, tl⟩ := t
+        have htl := decTag_len ht
+        by_cases hmax : num > maxValidNumber
+        · simp only [decLazyLoop, decMsg, ht, hmax, if_true]
+          exact ⟨(by intro e he; cases he; rfl), (by intro l' hl; cases hl)⟩
+        · rw [decMsg_step_eq fuel S mi m (x :: r) num wt tl depth dis (by simp) ht hmax]
+          conv => enter [1, e, 1, 1]; unfold decLazyLoop
+          conv => enter [2, l', 1, 1]; unfold decLazyLoop
+          simp only [ht, hmax, if_false]
+          have generic : (∀ f, (S.msg mi).find num = some f → isLazyField lazy f = true → wt ≠ 2) →
+              (∀ e, (match decOne fuel S mi l.base (x :: r) num wt tl depth dis with
+                  | .error e => (.error e : Except DErr LMsg)
+                  | .ok (m', rest) => decLazyLoop fuel S mi lazy ⟨m', l.pend⟩ rest depth dis) = .error e →
+                (match decOne fuel S mi m (x :: r) num wt tl depth dis with
+                  | .error e => (.error e : Except DErr Msg)
+                  | .ok (m', rest) => decMsg fuel S mi m' rest depth dis) = .error e) ∧
+              (∀ l', (match decOne fuel S mi l.base (x :: r) num wt tl depth dis with
+                  | .error e => (.error e : Except DErr LMsg)
+                  | .ok (m', rest) => decLazyLoop fuel S mi lazy ⟨m', l.pend⟩ rest depth dis) = .ok l' →
+                ∃ m', (match decOne fuel S mi m (x :: r) num wt tl depth dis with
+                  | .error e => (.error e : Except DErr Msg)
+                  | .ok (m', rest) => decMsg fuel S mi m' rest depth dis) = .ok m' ∧ Sim S mi lazy depth dis l' m') := by
+            intro hgen
+            cases fuel with
+            | zero => simp only [List.length_cons] at hf; omega
+            | succ fu =>
+              obtain ⟨sErr, sOk⟩ := decOne_sim hsim fu (x :: r) num wt tl hgen
+              cases hone : decOne (fu + 1) S mi l.base (x :: r) num wt tl depth dis with
+              | error e0 =>
+                rw [sErr e0 hone]
+                exact ⟨(by intro e he; cases he; rfl), (by intro l' hl; cases hl)⟩
+              | ok pr =>
+                obtain ⟨b', rest⟩ := pr
+                obtain ⟨m', hm', hs'⟩ := sOk b' rest hone
+                rw [hm']
+                simp only
+                have hrest : rest.length + 2 ≤ fu + 1 := by
+                  have := decOne_rest_len hone
+                  simp only [List.length_cons] at hf this; omega
+                exact lazy_sim S mi lazy depth dis (fu + 1) ⟨b', l.pend⟩ m' rest hs' hrest
+          cases hfind : (S.msg mi).find num with
+          | none =>
+            simp only
+            exact generic (by intro f hf'; rw [hfind] at hf'; cases hf')
+          | some f =>
+            simp only
+            by_cases hc : (isLazyField lazy f && wt == 2) = true
+            · simp only [hc, if_true]
+              simp only [Bool.and_eq_true, beq_iff_eq] at hc
+              obtain ⟨hl, hw⟩ := hc
+              subst hw
+              have hfn := MsgD.find_num_eq hfind
+              subst hfn
+              cases fuel with
+              | zero => simp only [List.length_cons] at hf; omega
+              | succ fu =>
+              have hlz := hsim.lazyf f.num f hfind hl
+              -- the submessage held so far on the eager side
+              obtain ⟨c, hcur, hocc⟩ : ∃ c, ((m.fields.get? f.num = none ∧ c = Msg.empty) ∨
+                  m.fields.get? f.num = some (.one (.msg c))) ∧
+                  decodeOcc S f.sub (depth - 1) dis (occurrences l.pend f.num) Msg.empty = .ok c := by
+                rcases hlz.2 with ⟨h0, hm0⟩ | ⟨_, sub, hs, hm1⟩
+                · exact ⟨Msg.empty, Or.inl ⟨hm0, rfl⟩, by rw [h0]; rfl⟩
+                · exact ⟨sub, Or.inr hm1, hs⟩
+              have heager : decOne (fu + 1) S mi m (x :: r) f.num 2 tl depth dis =
+                  match decField (fu + 1) S mi m f 2 (List.drop tl (x :: r)) depth dis with
+                  | .err e => .error e
+                  | .ok m' =>
+                    match consumeFieldValue f.num 2 (List.drop tl (x :: r)) with
+                    | .error _ => .error .decode
+                    | .ok n => .ok (m', (List.drop tl (x :: r)).drop n)
+                  | .unknown =>
+                    match consumeFieldValue f.num 2 (List.drop tl (x :: r)) with
+                    | .error _ => .error .decode
+                    | .ok n => .ok (if dis then m else Msg.mk m.fields (m.unknown ++ (x :: r).take (tl + n)),
+                        (List.drop tl (x :: r)).drop n) := by
+                unfold decOne; simp only [hfind]
+                cases decField (fu + 1) S mi m f 2 (List.drop tl (x :: r)) depth dis with
+                | err e => rfl
+                | ok m' => cases consumeFieldValue f.num 2 (List.drop tl (x :: r)) <;> rfl
+                | unknown => cases consumeFieldValue f.num 2 (List.drop tl (x :: r)) <;> rfl
+              rw [heager, decField_lazy_eval fu hl hcur, consumeFieldValue_bytes]
+              cases hb : decBytes (List.drop tl (x :: r)) with
+              | error e0 =>
+                simp only
+                exact ⟨(by intro e he; cases he; rfl), (by intro l' hl'; cases hl')⟩
+              | ok pn =>
+                obtain ⟨p, n⟩ := pn
+                simp only [Except.map]
+                by_cases hd : depth - 1 < 0
+                · simp only [hd, if_true]
+                  exact ⟨(by intro e he; cases he; rfl), (by intro l' hl'; cases hl')⟩
+                · simp only [hd, if_false]
+                  have hplen := decBytes_payload_len hb
+                  have hnle := decBytes_len hb
+                  simp only [List.length_drop, List.length_cons] at hplen hnle hf
+                  have hp1 : p.length + 2 ≤ fu := by omega
+                  -- validation (into the empty message) and the eager merge-decode have the same verdict
+                  have hfe : decMsg (fu + 1) S f.sub Msg.empty p (depth - 1) dis =
+                      decMsg fu S f.sub Msg.empty p (depth - 1) dis :=
+                    decMsg_fuel_eq S f.sub Msg.empty p (depth - 1) dis (by omega) hp1
+                  rw [hfe]
+                  cases hv : decMsg fu S f.sub Msg.empty p (depth - 1) dis with
+                  | error e0 =>
+                    have := (dec_verdict_indep fu).1 S f.sub Msg.empty c p (depth - 1) dis e0 hv
+                    rw [this]
+                    simp only
+                    exact ⟨(by intro e he; cases he; rfl), (by intro l' hl'; cases hl')⟩
+                  | ok v0 =>
+                    cases hc : decMsg fu S f.sub c p (depth - 1) dis with
+                    | error e1 =>
+                      have := (dec_verdict_indep fu).1 S f.sub c Msg.empty p (depth - 1) dis e1 hc
+                      rw [this] at hv; cases hv
+                    | ok sub' =>
+                      simp only
+                      -- the new states are related
+                      have hs' : Sim S mi lazy depth dis ⟨l.base, l.pend ++ [(f.num, p)]⟩
+                          (.mk (m.fields.set f.num (.one (.msg sub'))) m.unknown) := by
+                        refine ⟨hsim.unk, Fields.sortedFrom_set _ (Nat.zero_le _) hsim.sm, hsim.sb, ?_, ?_, ?_⟩
+                        · intro k hk
+                          have hkf : ¬ f.num = k := by
+                            intro e; subst e; simp [lazyAt, hfind, hl] at hk
+                          simp only [Msg.fields, Fields.get?_set, hkf, if_false]
+                          exact hsim.nonlazy k hk
+                        · intro k g hkg hlg
+                          have hold := hsim.lazyf k g hkg hlg
+                          refine ⟨hold.1, ?_⟩
+                          simp only [occurrences_append, Msg.fields, Fields.get?_set]
+                          by_cases hkf : f.num = k
+                          · subst hkf
+                            rw [hfind] at hkg; cases hkg
+                            simp only [if_true]
+                            right
+                            refine ⟨by simp, sub', ?_, rfl⟩
+                            rw [decodeOcc_append, hocc]
+                            simp only
+                            rw [decMsg_fuel_eq S _ c p (depth - 1) dis (f := Pb.fuelFor p) (f' := fu)
+                              (by unfold Pb.fuelFor; omega) hp1]
+                            exact hc
+                          · simp only [hkf, if_false]
+                            exact hold.2
+                        · intro kp hkp
+                          simp only [List.mem_append, List.mem_singleton] at hkp
+                          rcases hkp with hkp | rfl
+                          · exact hsim.pendLazy kp hkp
+                          · simp [lazyAt, hfind, hl]
+                      have hrest : (List.drop n (List.drop tl (x :: r))).length + 2 ≤ fu + 1 := by
+                        simp only [List.length_drop, List.length_cons]; omega
+                      exact lazy_sim S mi lazy depth dis (fu + 1) _ _ _ hs' hrest
+            · simp only [hc, if_false]
+              apply generic
+              intro g hg hlg hw
+              rw [hfind] at hg; cases hg
+              apply hc; simp [hlg, hw]
+
+/-- the submessage that forcing field `k` produces -/
+def subOf (S : Schema) (mi : Nat) (depth : Int) (dis : Bool) (pend : List (Nat × List Byte)) (k : Nat) : Option Msg :=
+  match (S.msg mi).find k with
+  | none => none
+  | some f =>
+    match decodeOcc S f.sub (depth - 1) dis (occurrences pend k) Msg.empty with
+    | .ok sub => some sub
+    | .error _ => none
+
+theorem mem_pendNums (pend : List (Nat × List Byte)) (k : Nat) : k ∈ pendNums pend ↔ occurrences pend k ≠ [] := by
+  unfold pendNums occurrences
+  rw [List.mem_eraseDups]
+  constructor
+  · intro hk
+    rw [List.mem_map] at hk
+    obtain ⟨kp, hm, rfl⟩ := hk
+    intro he
+    have : kp ∈ pend.filter (fun x => x.1 == kp.1) := by simp [hm]
+    rw [List.map_eq_nil_iff] at he
+    rw [he] at this; cases this
+  · intro hne
+    have : pend.filter (fun x => x.1 == k) ≠ [] := by
+      intro e; apply hne; rw [e]; rfl
+    obtain ⟨kp, hkp⟩ := List.exists_mem_of_ne_nil _ this
+    rw [List.mem_filter] at hkp
+    rw [List.mem_map]
+    exact ⟨kp, hkp.1, by simpa using hkp.2⟩
+
+theorem forceAll_spec (S : Schema) (mi : Nat) (depth : Int) (dis : Bool) (pend : List (Nat × List Byte)) :
+    ∀ (ks : List Nat) (m0 : Msg), (∀ k ∈ ks, (subOf S mi depth dis pend k).isSome = true) →
+      ∃ r, forceAll S mi depth dis pend ks m0 = .ok r ∧ r.unknown = m0.unknown ∧
+        (m0.fields.sortedFrom 0 → r.fields.sortedFrom 0) ∧
+        ∀ j, r.fields.get? j =
+          if j ∈ ks then (subOf S mi depth dis pend j).map (fun s => FVal.one (.msg s)) else m0.fields.get? j
+  | [], m0, _ => ⟨m0, rfl, rfl, id, by intro j; simp⟩
+  | k :: ks, m0, h => by
+    have hk := h k (by simp)
+    unfold subOf at hk
+    cases hfind : (S.msg mi).find k with
+    | none => simp [hfind] at hk
+    | some f =>
+      simp only [hfind] at hk
+      cases hdo : decodeOcc S f.sub (depth - 1) dis (occurrences pend k) Msg.empty with
+      | error e => simp [hdo] at hk
+      | ok sub =>
+        obtain ⟨r, hr, hu, hs, hg⟩ := forceAll_spec S mi depth dis pend ks
+          (.mk (m0.fields.set k (.one (.msg sub))) m0.unknown) (fun k' hk' => h k' (by simp [hk']))
+        refine ⟨r, ?_, hu, ?_, ?_⟩
+        · simp only [forceAll, forceField, hfind, hdo]; exact hr
+        · intro h0; exact hs (Fields.sortedFrom_set _ (Nat.zero_le _) h0)
+        · intro j
+          rw [hg j]
+          by_cases hj : j ∈ ks
+          · simp [hj]
+          · simp only [hj, if_false, Msg.fields, Fields.get?_set, List.mem_cons]
+            by_cases hkj : k = j
+            · subst hkj; simp [subOf, hfind, hdo]
+            · have : ¬ j = k := fun e => hkj e.symm
+              simp [hkj, this]
+
+/-- **forcing a related lazy state gives the eager message** -/
+theorem force_of_sim {S : Schema} {mi : Nat} {lazy : Nat → Bool} {depth : Int} {dis : Bool} {l : LMsg} {m : Msg}
+    (h : Sim S mi lazy depth dis l m) : forceAll S mi depth dis l.pend (pendNums l.pend) l.base = .ok m := by
+  have hall : ∀ k ∈ pendNums l.pend, (subOf S mi depth dis l.pend k).isSome = true := by
+    intro k hk
+    have hocc := (mem_pendNums l.pend k).mp hk
+    -- k is a lazy field
+    have hlz : lazyAt S mi lazy k = true := by
+      unfold pendNums at hk
+      rw [List.mem_eraseDups, List.mem_map] at hk
+      obtain ⟨kp, hm, rfl⟩ := hk
+      exact h.pendLazy kp hm
+    unfold lazyAt at hlz
+    cases hfind : (S.msg mi).find k with
+    | none => simp [hfind] at hlz
+    | some f =>
+      simp only [hfind] at hlz
+      rcases (h.lazyf k f hfind hlz).2 with ⟨h0, _⟩ | ⟨_, sub, hs, _⟩
+      · exact absurd h0 hocc
+      · simp [subOf, hfind, hs]
+  obtain ⟨r, hr, hu, hs, hg⟩ := forceAll_spec S mi depth dis l.pend (pendNums l.pend) l.base hall
+  rw [hr]
+  congr 1
+  have hfields : r.fields = m.fields := by
+    apply Fields.ext_sorted (hs h.sb) h.sm
+    intro j
+    rw [hg j]
+    cases hlz : lazyAt S mi lazy j with
+    | false =>
+      have hnm : j ∉ pendNums l.pend := by
+        intro hj
+        unfold pendNums at hj
+        rw [List.mem_eraseDups, List.mem_map] at hj
+        obtain ⟨kp, hm, rfl⟩ := hj
+        rw [h.pendLazy kp hm] at hlz; cases hlz
+      simp only [hnm, if_false]
+      exact (h.nonlazy j hlz).symm
+    | true =>
+      unfold lazyAt at hlz
+      cases hfind : (S.msg mi).find j with
+      | none => simp [hfind] at hlz
+      | some f =>
+        simp only [hfind] at hlz
+        obtain ⟨hb0, hcase⟩ := h.lazyf j f hfind hlz
+        rcases hcase with ⟨h0, hm0⟩ | ⟨hne, sub, hs', hm1⟩
+        · have hnm : j ∉ pendNums l.pend := by rw [mem_pendNums]; simp [h0]
+          simp only [hnm, if_false]
+          rw [hb0, hm0]
+        · have hin : j ∈ pendNums l.pend := (mem_pendNums _ _).mpr hne
+          simp only [hin, if_true, subOf, hfind, hs', Option.map_some]
+          exact hm1.symm
+  have hunk : r.unknown = m.unknown := by rw [hu, h.unk]
+  cases r; cases m
+  simp only [Msg.fields, Msg.unknown] at hfields hunk
+  rw [hfields, hunk]
+
 end Pb
